@@ -462,6 +462,27 @@ pub fn s_rtx_unwrap(_run: &mut Run, t: &str, ssrc: &str, pt: &str) -> (String, F
     (match u { None => "none".into(), Some(u) => format!("some {}", show_pkt(&u)) }, f)
 }
 
+pub fn s_apt(_run: &mut Run, hx: &str) -> (String, Fails) {
+    let b = unhex(hx);
+    let t = String::from_utf8(b).expect("ascii");
+    let r = rustrtc::rtx::parse_apt(&t);
+    (match r { None => "none".into(), Some(v) => format!("some:{v}") }, vec![])
+}
+
+pub fn s_aptmap(_run: &mut Run, toks: &[&str]) -> (String, Fails) {
+    let attrs: Vec<(String, Option<String>)> = toks.iter().map(|t| match t.split_once('=') {
+        None => (String::from_utf8(unhex(t)).unwrap(), None),
+        Some((k, v)) => (String::from_utf8(unhex(k)).unwrap(), Some(String::from_utf8(unhex(v)).unwrap())) }).collect();
+    let m = rustrtc::rtx::extract_rtx_apt_map(&attrs);
+    let mut v: Vec<(u8, u8)> = m.iter().map(|(a, b)| (*a, *b)).collect(); v.sort();
+    let mut f = vec![];
+    // what `append_rtx_to_section` writes is read back: "<rtx> apt=<primary>"
+    for (k, val) in &attrs { if k == "fmtp" { if let Some(val) = val { if let Some((a, rest)) = val.split_once(' ') {
+        if let (Ok(pt), Some(p)) = (a.parse::<u8>(), rest.strip_prefix("apt=").and_then(|x| x.parse::<u8>().ok())) {
+            if !rest.contains(';') && !m.contains_key(&pt) { f.push(("codec:rtx:aptmap".into(), format!("{pt} apt={p} not in map"))); } } } } } }
+    (show_list(v.iter().map(|(a, b)| format!("{a}:{b}")).collect(), ";"), f)
+}
+
 pub fn s_is_rtcp(_run: &mut Run, hx: &str) -> (String, Fails) {
     let b = unhex(hx);
     ((is_rtcp(&b) as u8).to_string(), vec![])
@@ -505,6 +526,8 @@ pub fn exec(run: &mut Run, case: &str) -> (String, String, String, Fails) {
         "utf8" => s_utf8(run, a[0]),
         "rtx_wrap" => s_rtx_wrap(run, a[0], a[1], a[2], a[3]),
         "rtx_unwrap" => s_rtx_unwrap(run, a[0], a[1], a[2]),
+        "apt" => s_apt(run, a[0]),
+        "aptmap" => s_aptmap(run, a),
         "is_rtcp" => s_is_rtcp(run, a[0]),
         "osn" => s_osn(run, a[0]),
         "rtx_alloc" => s_rtx_alloc(run, a[0]),
@@ -530,12 +553,12 @@ fn emit(run: &mut Run, case: String, nontrivial_hint: bool) {
 pub fn run(args: &Args) {
     let mut run = Run::new("c15", &args.out);
     if let Some(case) = &args.replay {
-        const STREAMS: [&str; 17] = ["rtp_marshal", "rtp_parse", "rtp_parse_ref", "ext_get", "ext_set", "rtcp_marshal", "rtcp_parse",
+        const STREAMS: [&str; 19] = ["apt", "aptmap", "rtp_marshal", "rtp_parse", "rtp_parse_ref", "ext_get", "ext_set", "rtcp_marshal", "rtcp_parse",
             "rtcp_parse_ref", "utf8", "rtx_wrap", "rtx_unwrap", "nackbuf", "gap", "is_rtcp", "osn", "rtx_alloc", "-"];
         let first = case.split_whitespace().next().unwrap_or("-");
         // replay files written for a model/implementation disagreement carry the input without its
         // stream name: try every stream the input is well-formed for
-        let cands: Vec<String> = if STREAMS.contains(&first) { vec![case.clone()] } else { STREAMS[..16].iter().map(|s| format!("{s} {case}")).collect() };
+        let cands: Vec<String> = if STREAMS.contains(&first) { vec![case.clone()] } else { STREAMS[..18].iter().map(|s| format!("{s} {case}")).collect() };
         for c in cands {
             let c2 = c.clone();
             let dir = format!("{}/replay", args.out);
@@ -717,6 +740,29 @@ pub fn run(args: &Args) {
         for _ in 0..rng.below(12) { used.push(pk!(rng, [95u8, 96, 97, 100, 126, 127, 128, 0, 255, rng.range(90, 130) as u8])); }
         if rng.chance(1, 4) && !used.is_empty() { let k = rng.below(used.len() as u64) as usize; used.remove(k); }
         emit(&mut run, format!("rtx_alloc {}", show_list(used.iter().map(|x| x.to_string()).collect(), ";")), true);
+    }
+
+    // ---- RTX apt association (ASCII fmtp values: what append_rtx_to_section writes, variants, malformed)
+    let piece = |rng: &mut Rng| -> String {
+        let n = pk!(rng, [96u32, 0, 255, 256, 97, 127, 1000, rng.below(300) as u32]);
+        let num = match rng.below(6) { 0 => format!("+{n}"), 1 => format!("0{n}"), 2 => format!("-{n}"), 3 => format!("{n}x"), _ => n.to_string() };
+        match rng.below(12) {
+            0 => format!("apt={num}"), 1 => format!(" apt={num} "), 2 => format!("APT={num}"), 3 => format!("apt= {num}"), 4 => format!("Apt={num}"),
+            5 => "rtx-time=3000".into(), 6 => "apt=".into(), 7 => format!("apt ={num}"), 8 => String::new(), 9 => format!("\tapt={num}\r"),
+            10 => format!("xapt={num}"), _ => format!("apt={num}") } };
+    for _ in 0..600 * scale {
+        let k = rng.range(1, 3); let parts: Vec<String> = (0..k).map(|_| piece(&mut rng)).collect();
+        emit(&mut run, format!("apt {}", hex(parts.join(";").as_bytes())), true);
+    }
+    for pt in 0..=255u32 { emit(&mut run, format!("apt {}", hex(format!("apt={pt}").as_bytes())), true); }
+    for _ in 0..300 * scale {
+        let n = rng.range(1, 5);
+        let toks: Vec<String> = (0..n).map(|_| {
+            let key = pk!(rng, ["fmtp", "fmtp", "fmtp", "rtpmap", "FMTP", "fmtp "]);
+            let val = match rng.below(8) { 0 => None, 1 => Some(format!("{}", rng.below(130))), 2 => Some(format!("{} VP8/90000", rng.below(130))),
+                3 => Some(format!("{}  {}", 96 + rng.below(4), piece(&mut rng))), _ => Some(format!("{} {}", pk!(rng, [96u64, 97, 97, 98, 300, rng.below(130)]), piece(&mut rng))) };
+            match val { None => hex(key.as_bytes()), Some(v) => format!("{}={}", hex(key.as_bytes()), hex(v.as_bytes())) } }).collect();
+        emit(&mut run, format!("aptmap {}", toks.join(" ")), true);
     }
 
     // ---- NACK send buffer and receiver gap detection
